@@ -27,7 +27,8 @@ EXHAUSTIVE = {'quick': False, 'thorough': False}
 
 CONFIGS = [{'hold': 180, 'idle_hold': 30, 'connect_retry': 60}, {'hold': 9, 'idle_hold': 5, 'connect_retry': 60},
            {'hold': 30, 'idle_hold': 1, 'connect_retry': 40}, {'hold': 180, 'idle_hold': 30, 'connect_retry': 30},
-           {'hold': 0, 'idle_hold': 30, 'connect_retry': 60}]
+           {'hold': 0, 'idle_hold': 30, 'connect_retry': 60}, {'hold': 180, 'idle_hold': 0, 'connect_retry': 60},
+           {'hold': 90, 'idle_hold': 0, 'connect_retry': 5}, {'hold': 3, 'idle_hold': 2, 'connect_retry': 1}]
 PEER_HOLD = 90
 _fresh = {}
 
@@ -157,7 +158,7 @@ def run_explicit(case):
 
 
 def shards(tier):
-    n = 500 if tier == 'quick' else 30000
+    n = 1500 if tier == 'quick' else 30000
     return [{'name': 'prefixes-%d' % i, 'kind': 'hyp', 'examples': n, 'hypothesis': True,
              'steps': 14 if tier == 'quick' else 30} for i in range(8 if tier == 'quick' else 16)]
 
